@@ -29,6 +29,110 @@ type mapDriver struct {
 	cnt modelCounts
 	// keys currently carrying the invalidation label "L" in the backend's own index
 	labelled map[string]bool
+	bulked   bool // a bulk population was written (at most one per case)
+	noNoise  bool // suppress per-operation context draws (sweeps over all keys)
+}
+
+// noiseCtx returns base wrapped in a context that the documented API gives no meaning for the
+// operation at hand: already cancelled, past its deadline, or carrying an unrelated option.
+// Backends are in-memory maps; nothing says an operation may fail or change because of them.
+func (d *mapDriver) noiseCtx(base context.Context, op string) context.Context {
+	if d.noNoise {
+		return base
+	}
+
+	switch d.c.Weighted("ctx-noise", 8, 1, 1, 1) {
+	case 1:
+		ctx, cancel := context.WithCancel(base)
+		cancel()
+		d.c.Class("ctx=cancelled:" + op)
+
+		return ctx
+	case 2:
+		ctx, cancel := context.WithDeadline(base, time.Now().Add(-time.Second))
+		d.c.OnClose(0, cancel)
+		d.c.Class("ctx=deadline-passed:" + op)
+
+		return ctx
+	case 3:
+		if op == "read" || op == "write" {
+			return base // SkipRead / TTL mean something there
+		}
+
+		d.c.Class("ctx=skipread+ttl:" + op)
+
+		return cache.WithTTL(cache.WithSkipRead(base), time.Minute, false)
+	}
+
+	return base
+}
+
+// bulk writes n further keys in one go (spread over all shards, or all in the shard of "a").
+func (d *mapDriver) bulk(n int, sameShard bool, ttl time.Duration) {
+	d.bulked = true
+	now := time.Now()
+
+	var unsettled []string
+
+	for i := 0; i < n; i++ {
+		var key []byte
+		if sameShard {
+			key = sameShardPool[i%len(sameShardPool)]
+		} else {
+			key = []byte(fmt.Sprintf("bulk-%05d", i))
+		}
+
+		if sameShard && i >= len(sameShardPool) {
+			break
+		}
+
+		val := "bulk:" + string(key)
+		err := d.be.Write(ttlCtx(ttl), key, val)
+		d.c.Assert(err == nil, "write-error", "bulk Write(%s) returned %v", keyName(key), err)
+		d.cnt.writes++
+
+		e := d.ref.write(now, key, val, ttl)
+		if !e.settled {
+			unsettled = append(unsettled, string(key))
+		}
+	}
+
+	if len(unsettled) > 0 {
+		_, _ = d.be.Walk(func(k []byte, _ interface{}, exp time.Time) error {
+			if e := d.ref.m[string(k)]; e != nil && !e.settled {
+				ns := exp.UnixNano()
+				d.c.Assert(ns >= e.lo && ns <= e.hi, "jitter-band", "key %s: expiry %d outside permitted band [%d, %d]", keyName(k), ns, e.lo, e.hi)
+				e.e, e.settled = ns, true
+			}
+
+			return nil
+		})
+
+		for _, k := range unsettled {
+			d.c.Assert(d.ref.m[k].settled, "walk-missing", "key %s just written is not reported by Walk", keyName([]byte(k)))
+		}
+	}
+
+	d.c.Tracef("bulk: %d keys written (same shard=%v, ttl=%v)", n, sameShard, ttl)
+	d.c.Class(fmt.Sprintf("bulk=%d", n))
+}
+
+// churn writes and deletes one key r times (long histories leave the model where it was).
+func (d *mapDriver) churn(key []byte, r int) {
+	for i := 0; i < r; i++ {
+		err := d.be.Write(bg, key, "churn")
+		d.c.Assert(err == nil, "write-error", "churn Write returned %v", err)
+
+		err = d.be.Delete(bg, key)
+		d.c.Assert(err == nil, "delete-present", "churn round %d: Delete(%s) right after Write = %v", i, keyName(key), err)
+	}
+
+	d.cnt.writes += float64(r)
+	d.cnt.deletes += float64(r)
+	d.ref.del(key)
+	delete(d.lossy, string(key))
+	d.c.Tracef("churn: %d x (Write, Delete) of %s", r, keyName(key))
+	d.c.Class(fmt.Sprintf("churn=%d", r))
 }
 
 type modelCounts struct {
@@ -105,7 +209,7 @@ func (d *mapDriver) write(key []byte, val interface{}, ttl time.Duration, viaSto
 		d.be.Store(k, val)
 		d.c.Tracef("Store(%s, %v)", keyName(key), val)
 	} else {
-		err := d.be.Write(ttlCtx(ttl), k, val)
+		err := d.be.Write(d.noiseCtx(ttlCtx(ttl), "write"), k, val)
 		d.c.Tracef("Write(%s, %v, ttl=%v) = %v", keyName(key), val, ttl, err)
 		d.c.Assert(err == nil, "write-error", "Write(%s) returned %v", keyName(key), err)
 	}
@@ -193,6 +297,7 @@ func (d *mapDriver) read(key []byte, skip, viaLoad bool) {
 		ctx = cache.WithSkipRead(ctx)
 	}
 
+	ctx = d.noiseCtx(ctx, "read")
 	r := d.be.Read(ctx, k)
 	poison()
 	d.c.Tracef("Read(%s, skip=%v) = %v, %v   model: %v", keyName(key), skip, r.Val, r.Err, kind)
@@ -265,7 +370,7 @@ func (d *mapDriver) forget(key []byte) {
 
 func (d *mapDriver) del(key []byte) {
 	k, poison := poisonKey(key)
-	err := d.be.Delete(bg, k)
+	err := d.be.Delete(d.noiseCtx(bg, "delete"), k)
 	poison()
 
 	present := d.ref.del(key)
@@ -313,7 +418,7 @@ func (d *mapDriver) label(key []byte) {
 
 // invalidate removes every labelled key; the labels are consumed.
 func (d *mapDriver) invalidate() {
-	n, err := d.be.Index().InvalidateByLabels(bg, "L")
+	n, err := d.be.Index().InvalidateByLabels(d.noiseCtx(bg, "invalidate"), "L")
 
 	removed, uncertain := 0, false
 
